@@ -155,7 +155,8 @@ REG.lemma("C08.feasible_set_along_one_coordinate_is_an_interval", _convexity, pr
 
 
 # ============================================================================ the allocation loops (C07 / C08)
-REG.schema("SortedSchedulingAlgo", bases=["BaseAlgorithm"], estimate_max_rate=Bool, uninterrupted_charging=Bool, allow_overcharging=Bool)
+REG.schema("SortedSchedulingAlgo", bases=["BaseAlgorithm"], estimate_max_rate=Bool, uninterrupted_charging=Bool, allow_overcharging=Bool,
+           max_rate_estimator=Ref("UpperBoundEstimatorBase", nullable=True))
 REG.schema("RoundRobin", bases=["SortedSchedulingAlgo"], continuous_inc=Real)
 IFACE = "acnportal.acnsim.interface.Interface."
 II = "acnportal.acnsim.interface.InfrastructureInfo."
@@ -664,7 +665,7 @@ REG.contract(
 
 
 # ---------------------------------------------------------------------------- apply_upper_bound_estimate
-REG.schema("UpperBoundEstimatorBase")
+REG.schema("UpperBoundEstimatorBase", _interface=Ref("Interface", nullable=True))
 REG.contract(
     "acnportal.algorithms.upper_bound_estimator.UpperBoundEstimatorBase.get_maximum_rates",
     params=dict(self=Ref("UpperBoundEstimatorBase"), sessions=Seq(Ref("SessionInfo"))), ret=Map(Id, Real), modifies=[],
